@@ -892,6 +892,7 @@ std::size_t CppCheck::calculateHash(const Preprocessor& preprocessor, const std:
         toolinfo << a.args;
     }
     toolinfo << mSettings.premiumArgs;
+    toolinfo << filePath;
     toolinfo << (mSettings.certainty.isEnabled(Certainty::inconclusive) ? 'i' : ' ');
     toolinfo << (mSettings.checks.isEnabled(Checks::unusedFunction) ? 'u' : ' ');
     toolinfo << (mSettings.checks.isEnabled(Checks::missingInclude) ? 'm' : ' ');
